@@ -216,13 +216,10 @@ func (e *FuncEnc) encodeCall(in ssa.Instruction, c *ssa.CallCommon, res ssa.Valu
 		for a := range saved {
 			e.noPreserve[a] = true
 		}
+		cw := e.closureWrittenSet()
 		for a := range e.private {
-			if refs := a.Referrers(); refs != nil {
-				for _, r := range *refs {
-					if _, ok := r.(*ssa.MakeClosure); ok {
-						e.noPreserve[a] = true
-					}
-				}
+			if cw[a] {
+				e.noPreserve[a] = true
 			}
 		}
 		defer func() { e.noPreserve = saved }()
@@ -303,7 +300,7 @@ func (e *FuncEnc) staticCall(in ssa.Instruction, f *ssa.Function, bindings []ssa
 		// a closure may write the variable cells it captures
 		saved, savedOuter := e.noPreserve, e.noPreserveOuter
 		e.noPreserveOuter = saved
-		e.noPreserve = capturedAllocs(bindings)
+		e.noPreserve = e.capturedWritten(bindings)
 		for a := range saved {
 			e.noPreserve[a] = true
 		}
